@@ -5,7 +5,9 @@
 use sourmash::encodings::HashFunctions;
 use sourmash::prelude::*;
 use sourmash::selection::Selection;
+use sourmash::index::calculate_gather_stats;
 use sourmash::signature::Signature;
+use sourmash::storage::SigStore;
 use sourmash::sketch::minhash::{max_hash_for_scaled, KmerMinHash, KmerMinHashBTree};
 use sourmash::sketch::Sketch;
 use std::collections::BTreeMap;
@@ -71,6 +73,14 @@ fn bits(x: f64) -> String {
     format!("{:016x}", x.to_bits())
 }
 
+fn fbits(x: f64) -> String {
+    if x.is_nan() {
+        "nan".into()
+    } else {
+        bits(x)
+    }
+}
+
 fn scaled_of(r: &Reg) -> u64 {
     match r {
         Reg::V(x) => x.scaled(),
@@ -91,7 +101,7 @@ fn step(st: &mut St, ws: &[&str]) -> String {
     let srcs: &[usize] = match ws[0] {
         "obs" | "scaled" | "add" | "set" => &[1],
         "copy" | "ds" | "dsm" => &[2],
-        "merge" | "isect" | "cc" | "sim" | "ccx" | "simx" | "iszx" => &[1, 2],
+        "merge" | "isect" | "cc" | "sim" | "ccx" | "simx" | "iszx" | "gstats" | "gstatsx" => &[1, 2],
         _ => &[],
     };
     if srcs.iter().any(|&i| !st.regs.contains_key(&n(i))) {
@@ -255,6 +265,39 @@ fn step(st: &mut St, ws: &[&str]) -> String {
                 }
             }
         }
+        // gstats Q M : calculate_gather_stats with query Q (never downsampled) and match M (downsampled
+        // on the fly); gstatsx: the match is downsampled explicitly first
+        "gstats" | "gstatsx" => {
+            let (q, m) = match (&st.regs[&n(1)], &st.regs[&n(2)]) {
+                (Reg::V(q), Reg::V(m)) => (q.clone(), m.clone()),
+                _ => return "bad-op".into(),
+            };
+            let m = if ws[0] == "gstatsx" {
+                match m.downsample_scaled(q.scaled()) {
+                    Ok(m) => m,
+                    Err(e) => return err(e),
+                }
+            } else {
+                m
+            };
+            let mut sig = Signature::default();
+            sig.set_name("m");
+            sig.push(Sketch::MinHash(m));
+            let store = SigStore::from(sig);
+            match calculate_gather_stats(&q, q.clone(), store, 1, 0, 0, 1, false, false, None) {
+                Ok((g, _)) => format!(
+                    "isect_bp={} rem_bp={} uniq_bp={} fo={} fm={} fmo={} fu={}",
+                    g.intersect_bp(),
+                    g.remaining_bp(),
+                    g.unique_intersect_bp(),
+                    fbits(g.f_orig_query()),
+                    fbits(g.f_match()),
+                    fbits(g.f_match_orig()),
+                    fbits(g.f_unique_to_query())
+                ),
+                Err(e) => err(e),
+            }
+        }
         // sel s R... : a signature holding the listed sketches, selected at scaled s
         "sel" => {
             let mut sig = Signature::default();
@@ -393,6 +436,12 @@ fn gen(a: &Args) {
                     "cc 0 1 0", "sim 0 1 1 0",
                 ] {
                     o.op(op);
+                }
+                // gather statistics: the match is downsampled to the query, never the other way round
+                if ty == "vec" {
+                    for op in ["gstats 0 1", "gstatsx 0 1", "gstats 1 0", "gstatsx 1 0"] {
+                        o.op(op);
+                    }
                 }
                 // operands are never modified
                 o.op("obs 0");
